@@ -226,7 +226,7 @@ Definition ex_host : host := mkHost
     (14, mkInode (KDir [] 12 false) 493 0 0 []);
     (15, mkInode (KLnk [46; 46; 47; 97]) 511 0 0 []);                          (* r -> ../a *)
     (16, mkInode (KLnk [47; 97]) 511 0 0 []) ]                                 (* s -> /a *)
-  17.
+  17 [].
 Definition ex_E0 : list N := [12; 13; 14; 15; 16].
 
 Lemma ex_inv : Inv ex_E0 17 12 (init_state ex_host 12).
